@@ -10,10 +10,15 @@ package actor
 // actor with path p (Context.tell). What the mailbox does with them is C01/C02/C03.
 // ---------------------------------------------------------------------------------------------
 
+//@ ghost tells(string)
+//@ ghost told(iface, mathint)
+// told(recipient, 2*typetag(message) + (system ? 1 : 0)): envelopes handed over by this goroutine, per
+// recipient value, message type and system flag
 //@ func (*Context).tell
 //@   trusted
 //@   requires recipient != nil
 //@   ghostinc tells(refPath(recipient))
+//@   ghostinc told(recipient, 2 * typetag(message) + (system ? 1 : 0))
 
 // ---------------------------------------------------------------------------------------------
 // C19 event stream: the two tables are mirror images; every access under es.mu
@@ -78,3 +83,30 @@ package actor
 // ownership: both tables (and their inner maps) may only be touched while holding es.mu
 //@ guarded (*eventStream).subscribers by mu deep
 //@ guarded (*eventStream).subscriberTypes by mu deep
+
+
+// ---------------------------------------------------------------------------------------------
+// C05 / C09: the restart step of the kill chain
+// ---------------------------------------------------------------------------------------------
+
+// a context as NewContext builds it: the fields the handlers dereference are present
+//@ pure ctxwf(c *Context) bool =
+//@     c != nil && c.options != nil && c.options.Logger != nil && c.system != nil && c.system.eventStream != nil &&
+//@     c.behaviorStack != nil && c.actor != nil && c.mailbox != nil && c.ref != nil && c.scheduler != nil
+
+//@ func (*killedHandler).handleRestart
+//@   requires ctxwf(h.ctx)
+//@   requires h.restarting ==> h.ctx.restarting != nil
+//@   modifies h.ctx.actor, h.ctx.behaviorStack.behaviors, h.ctx.zombie, h.ctx.restarting, h.ctx.state
+//@   ensures  !(old(h.shouldContinue) && old(h.restarting)) ==> h.ctx.state == old(h.ctx.state) && h.ctx.zombie == old(h.ctx.zombie) &&
+//@            forall r vivid.ActorRef, k mathint :: gcount(told, r, k) == old(gcount(told, r, k))
+// a successful restart: ONE OnLaunch, as a system message, to the restarted actor ITSELF and to nobody else
+//@   ensures  old(h.shouldContinue) && old(h.restarting) && !h.ctx.zombie ==>
+//@            gcount(told, iface(h.ctx.ref), 2 * tagof("*vivid.OnLaunch") + 1) == old(gcount(told, iface(h.ctx.ref), 2 * tagof("*vivid.OnLaunch") + 1)) + 1
+//@   ensures  old(h.shouldContinue) && old(h.restarting) && !h.ctx.zombie ==>
+//@            forall r vivid.ActorRef, k mathint :: (r != iface(h.ctx.ref) || k != 2 * tagof("*vivid.OnLaunch") + 1) ==> gcount(told, r, k) == old(gcount(told, r, k))
+//@   ensures  old(h.shouldContinue) && old(h.restarting) && !h.ctx.zombie ==> h.ctx.state == 0 && h.ctx.restarting == nil && len(h.ctx.behaviorStack.behaviors) == 1
+// in BOTH outcomes (restarted, zombie) the mailbox is resumed exactly once; a zombie tells nobody
+//@   ensures  old(h.shouldContinue) && old(h.restarting) ==> gcount(resumes, h.ctx.mailbox) == old(gcount(resumes, h.ctx.mailbox)) + 1
+//@   ensures  old(h.shouldContinue) && old(h.restarting) && h.ctx.zombie && !old(h.ctx.zombie) ==>
+//@            forall r vivid.ActorRef, k mathint :: gcount(told, r, k) == old(gcount(told, r, k))
